@@ -43,7 +43,9 @@ class _V(object):
         return not self.__eq__(other)
 
     def __hash__(self):
-        return hash(("V", self.ident))
+        # a plain concrete int: the builtin hash() is intercepted under CrossHair and may hand back a symbolic value, which
+        # C-level set construction ({x}, BUILD_SET) rejects ("__hash__ method should return an integer")
+        return 7919 + self.ident
 
     def to_string(self):
         return b"URI:VERIFY:%d" % self.ident
@@ -230,12 +232,12 @@ def _check(kinds, bits, alias_bits, walker_kind):
         w = _RecWalker()
         mon = root.deep_traverse(w)
         if not mon.is_finished() or w.finished != 1 or mon.get_status() != "done":
-            return "traversal did not finish (cycle?)"
+            return "traversal did not finish (cycle?): %r" % (mon.get_status(),)
         added = w.added
     elif walker_kind == 1:
         mon = root.build_manifest()
         if not mon.is_finished():
-            return "traversal did not finish (cycle?)"
+            return "traversal did not finish (cycle?): %r" % (mon.get_status(),)
         res = mon.get_status()
         if not isinstance(res, dict):
             return "manifest failed: %r" % (res,)
@@ -243,7 +245,7 @@ def _check(kinds, bits, alias_bits, walker_kind):
     else:
         mon = root.start_deep_stats()
         if not mon.is_finished():
-            return "traversal did not finish (cycle?)"
+            return "traversal did not finish (cycle?): %r" % (mon.get_status(),)
         res = {"stats": mon.get_status()}
         if not isinstance(res["stats"], dict):
             return "deep-stats failed: %r" % (res["stats"],)
